@@ -1175,14 +1175,19 @@ func checkExecuteFromSlave(reqCtx *util.RequestContext, c *SessionExecutor, sql 
 		if len(tokens) < 2 {
 			return true
 		}
-		lastFirstWord := strings.ToLower(tokens[tokensLen-1])
-		lastSecondWord := strings.ToLower(tokens[tokensLen-2])
-		if (lastFirstWord == "update" && lastSecondWord == "for") ||
-			(lastFirstWord == "mode" && lastSecondWord == "share") ||
-			(lastFirstWord == "share" && lastSecondWord == "for") ||
-			(lastFirstWord == "nowait" && (lastSecondWord == "share" || lastSecondWord == "update")) ||
-			(lastFirstWord == "locked" && lastSecondWord == "skip") {
-			return false
+		// the lock clause is looked for at the end of the statement proper: comments that
+		// follow it (trace ids appended by drivers, "-- ..." remarks) must not hide it
+		words := strings.FieldsFunc(parser.TrimTrailingComments(sql), parser.IsSqlSep)
+		if wordsLen := len(words); wordsLen >= 2 {
+			lastFirstWord := strings.ToLower(words[wordsLen-1])
+			lastSecondWord := strings.ToLower(words[wordsLen-2])
+			if (lastFirstWord == "update" && lastSecondWord == "for") ||
+				(lastFirstWord == "mode" && lastSecondWord == "share") ||
+				(lastFirstWord == "share" && lastSecondWord == "for") ||
+				(lastFirstWord == "nowait" && (lastSecondWord == "share" || lastSecondWord == "update")) ||
+				(lastFirstWord == "locked" && lastSecondWord == "skip") {
+				return false
+			}
 		}
 	}
 
